@@ -70,6 +70,21 @@ def random_params(rng, small=False):
     return p
 
 
+PROB_VALS = [0.125, 0.25, 0.375, 0.5, 0.625, 0.75, 0.875, 1.0, 0.0625, 0.1875, 0.3125, 0.4375, 0.5625, 0.6875,
+             0.8125, 0.9375, 0.03125, 0.09375]
+
+
+def fit_probs(p):
+    """probability LISTS must have one entry per definition: re-cut them after a size parameter changed"""
+    nexp = p["num_services"] if p.get("num_exploits") is None else p["num_exploits"]
+    npe = p.get("num_processes", 2) if p.get("num_privescs") is None else p["num_privescs"]
+    for key, n in (("exploit_probs", nexp), ("privesc_probs", npe)):
+        v = p.get(key)
+        if isinstance(v, (list, tuple)) and len(v) != n:
+            p[key] = (list(v) + [x for x in PROB_VALS if x not in v])[:n] if n <= len(PROB_VALS) else 1.0
+    return p
+
+
 def names_risky(p):
     """parameter sets for which the rejection-sampling loops can dead-end (defect D8)"""
     nsrv, nos, nproc = p["num_services"], p.get("num_os", 2), p.get("num_processes", 2)
@@ -407,14 +422,15 @@ def run(ctx, spec):
             # remembered from one generation (caches keyed on part of the parameters) shows up
             if p["uniform"]:
                 # tables enumerated for one (services, processes) shape must not leak into the next shape
-                sq = dict(p, num_processes=p["num_services"], num_privescs=None, num_exploits=None)
-                other = dict(sq, num_processes=(1 if p["num_services"] > 1 else 2))
+                sq = fit_probs(dict(p, num_processes=p["num_services"], num_privescs=None, num_exploits=None))
+                other = fit_probs(dict(sq, num_processes=(1 if p["num_services"] > 1 else 2)))
                 psets.append((f"random{i}~square", sq))
                 psets.append((f"random{i}~square~procs", other))
             if rng.random() < 0.6:
                 for key in rng.sample(["num_processes", "num_services", "num_os"], 2):
                     q = dict(p, num_exploits=None, num_privescs=None)
                     q[key] = max(1, p[key] + rng.choice([-2, -1, 1, 2]))
+                    fit_probs(q)
                     if not names_risky(q):
                         psets.append((f"random{i}~{key}", q))
     # several OSs, tight firewalls, few processes: the corner where vulnerability repair and firewall
